@@ -84,7 +84,6 @@ func spawnThread(fn value, args []value, from string) {
 	}
 	t := R.newThread(name)
 	R.startThread(t, func() { call(nil, 0, fn, args) })
-	schedPoint("go")
 }
 
 // startThread creates the host goroutine for t; it runs only when handed the baton.
@@ -153,9 +152,13 @@ func (r *Run) handOff(me *thread) {
 	next.resume <- struct{}{}
 }
 
+// enabledOthers lists the runnable threads other than me in round-robin order
+// starting after me (the order of the default scheduler).
 func (r *Run) enabledOthers(me *thread) []*thread {
 	var out []*thread
-	for _, t := range r.threads {
+	n := len(r.threads)
+	for k := 1; k <= n; k++ {
+		t := r.threads[(me.id+k)%n]
 		if t == me || t.done {
 			continue
 		}
@@ -199,10 +202,15 @@ func (r *Run) pickNext(me *thread, finished bool) *thread {
 			r.deadlock(me, finished)
 			return nil
 		}
+		// default: the next runnable thread in round-robin order (a timer only if
+		// nothing can run); any other choice spends one unit of the delay budget
 		c := 0
-		if n > 1 {
+		if n > 1 && r.preempts < r.cfg.MaxPreempt {
 			conds := make([]*Term, n)
 			c = r.choose("sched", "blocked:"+me.blockedOn, conds)
+			if c > 0 {
+				r.preempts++
+			}
 		}
 		if c < len(en) {
 			return en[c]
@@ -213,6 +221,8 @@ func (r *Run) pickNext(me *thread, finished bool) *thread {
 }
 
 func (r *Run) fireTimer(tm *timer) {
+	r.noSched++
+	defer func() { r.noSched-- }()
 	tm.fired = true
 	if tm.deadline > r.now {
 		r.now = tm.deadline
@@ -268,6 +278,9 @@ func schedPoint(what string) {
 	me := r.cur
 	if len(r.threads) == 1 && len(r.timers) == 0 {
 		return
+	}
+	if r.initPkg != nil || r.noSched > 0 {
+		return // package initialisers and scheduler callbacks run atomically
 	}
 	if r.preempts >= r.cfg.MaxPreempt {
 		return
@@ -576,7 +589,8 @@ func mutexUnlock(p *value, what string) {
 	}
 	m.locked = false
 	m.writer = nil
-	schedPoint(what)
+	// no scheduling point after a release: switching here is equivalent to
+	// switching before this thread's next visible operation
 }
 
 func mutexRLock(p *value, what string) {
@@ -593,7 +607,6 @@ func mutexRUnlock(p *value, what string) {
 		panic(runAbort{"runlock of unlocked"})
 	}
 	m.readers--
-	schedPoint(what)
 }
 
 // heldBy reports whether the mutex at p is write-locked (by anyone) / read-locked.
